@@ -51,6 +51,7 @@ static uintptr_t g_meta = 0;
 static uintptr_t g_last_placed = 0;
 static uint32_t  g_step = 0;
 static uint64_t  g_step_ticks = 0;
+static uint64_t  g_step_budget = 0;
 static void    (*g_budget_handler)() = nullptr;
 static Pool      g_fresh[NCLS], g_freed[NCLS];
 
@@ -149,7 +150,7 @@ static inline void fill(void* p, size_t n, uint64_t w) {
 
 static inline void tick() {
 	++g_st.ticks;
-	if (++g_step_ticks > g_cfg.step_tick_budget && g_budget_handler) {
+	if (++g_step_ticks > g_step_budget && g_budget_handler) {
 		void (*h)() = g_budget_handler; g_budget_handler = nullptr; h();
 	}
 }
@@ -218,13 +219,15 @@ void begin_run(const Config& cfg) {
 	g_rng = cfg.layout_seed * 0x9e3779b97f4a7c15ull + 0x1234567;
 	g_nrng = cfg.noise_seed * 0xd1342543de82ef95ull + 0x7654321;
 	g_lo = ARENA_BASE + 4096; g_hi = ARENA_BASE + ARENA_SIZE - 4096;
-	g_meta = META_BASE; g_last_placed = 0; g_step = 0; g_step_ticks = 0;
+	g_meta = META_BASE; g_last_placed = 0; g_step = 0; g_step_ticks = 0; g_step_budget = cfg.step_tick_budget;
 	for (int i = 0; i < NCLS; ++i) { g_fresh[i] = Pool(); g_freed[i] = Pool(); }
 	g_active = true;
 }
 void end_run() { g_active = false; }
 bool active() { return g_active; }
-void step_begin() { ++g_step; g_step_ticks = 0; }
+void step_begin() { ++g_step; g_step_ticks = 0; g_step_budget = g_cfg.step_tick_budget; }
+void set_step_budget(uint64_t t) { g_step_budget = t ? t : g_cfg.step_tick_budget; }
+void reset_step_ticks() { g_step_ticks = 0; }
 uint64_t step_ticks() { return g_step_ticks; }
 const Stats& stats() { return g_st; }
 uint64_t fingerprint() { return g_fp; }
